@@ -467,10 +467,26 @@ func (ex *Ex) dynamicCall(fr *Frame, st *State, ins ssa.Instruction, cc *ssa.Cal
 		return
 	}
 	// calls through a parameter declared `purefn`: results are functions of the arguments
-	if p, ok := cc.Value.(*ssa.Parameter); ok && fr.Ctr != nil {
-		for _, pn := range fr.Ctr.PureFns {
-			if pn == p.Name() {
-				ex.note("calls through parameter " + p.Name() + " of " + fr.Name + " are pure and deterministic (T6)")
+	isPure := func() (bool, string) {
+		if fr.Ctr == nil {
+			return false, ""
+		}
+		if fr.Ctr.PureCalls {
+			return true, "function values called in " + fr.Name
+		}
+		if p, ok := cc.Value.(*ssa.Parameter); ok {
+			for _, pn := range fr.Ctr.PureFns {
+				if pn == p.Name() {
+					return true, "parameter " + p.Name() + " of " + fr.Name
+				}
+			}
+		}
+		return false, ""
+	}
+	if pure, what := isPure(); pure {
+		for once := true; once; once = false {
+			{
+				ex.note("calls through " + what + " are pure and deterministic up to allocation (T6)")
 				ts := []*T{ft}
 				for i, a := range args {
 					ts = append(ts, ex.termOf(fr, st, a, cc.Args[i].Type()))
